@@ -18,6 +18,7 @@ class Context:
         self._eff: dict[str, Effects] = {}
         self._loops: dict[str, SolveLoop] = {}
         self.cache: dict = {}
+        self.dealiased = _dealias_read_only_attrs(self.ct)
 
     def effects(self, cls: ClassInfo) -> Effects:
         e = self._eff.get(cls.qualname)
@@ -40,6 +41,115 @@ class Context:
     def rel(self, cls_or_mod) -> str:
         m = cls_or_mod.module if isinstance(cls_or_mod, ClassInfo) else cls_or_mod
         return m.relpath
+
+
+def _dealias_read_only_attrs(ct: ClassTable) -> int:
+    """`t = self.a.b` ... `t` (a loop invariant looked up once) is read as `self.a.b` wherever the method - under the class
+    that defines it and under every subclass - can be shown never to write `self.a`, directly or through anything it calls.
+    A local that caches an attribute the method *does* write keeps its own identity: that is the stale-value hazard the
+    ordering rules look for, and it must stay visible."""
+    import copy
+
+    n_done = 0
+    eff_cache: dict[str, Effects] = {}
+    for ci in list(ct.by_qual.values()):
+        for fn in list(ci.methods.values()):
+            if not fn.args.args or fn.args.args[0].arg != "self":
+                continue
+            defs: dict[str, list] = {}
+            for st in ast.walk(fn):
+                tg = st.targets if isinstance(st, ast.Assign) else [st.target] if isinstance(st, (ast.AugAssign, ast.AnnAssign, ast.For, ast.NamedExpr)) else \
+                    [i.optional_vars for i in st.items if i.optional_vars is not None] if isinstance(st, ast.With) else []
+                for t in tg:
+                    for x in ast.walk(t):
+                        if isinstance(x, ast.Name) and isinstance(x.ctx, ast.Store):
+                            defs.setdefault(x.id, []).append(st)
+                if isinstance(st, ast.ExceptHandler) and st.name:
+                    defs.setdefault(st.name, []).append(st)
+            params = {a.arg for a in fn.args.args + fn.args.kwonlyargs}
+            cands = {}
+            for name, ds in defs.items():
+                if name in params or len(ds) != 1 or not isinstance(ds[0], ast.Assign) or len(ds[0].targets) != 1 \
+                        or not isinstance(ds[0].targets[0], ast.Name):
+                    continue
+                v = ds[0].value
+                base = v
+                while isinstance(base, ast.Attribute):
+                    root_attr = base.attr
+                    base = base.value
+                if isinstance(v, ast.Attribute) and isinstance(base, ast.Name) and base.id == "self":
+                    cands[name] = (v, root_attr, ds[0])
+            if not cands:
+                continue
+            # transitive writes of the method under every class it can run in
+            writes: set[str] = set()
+            ok = True
+            for k in [ci] + ct.subclasses(ci):
+                e = eff_cache.get(k.qualname)
+                if e is None:
+                    try:
+                        e = eff_cache[k.qualname] = Effects(ct, k)
+                    except AnalysisError:
+                        ok = False
+                        break
+                try:
+                    writes |= set(e.of_function(ci, fn)[1])
+                except (AnalysisError, RecursionError):
+                    ok = False
+                    break
+            if not ok:
+                continue
+            methodish = set()
+            for k in [ci] + ct.subclasses(ci) + ct.mro(ci):
+                methodish |= set(k.methods)
+            table = {}
+            for n, (v, root, _d) in cands.items():
+                if root in writes:
+                    continue
+                if root not in methodish:
+                    table[n] = v
+                    continue
+                # a property read once: the same value later iff the property only reads, and reads nothing the method writes
+                if isinstance(v.value, ast.Name) and ct.is_property(ci, root):
+                    pure = True
+                    for k in [ci] + ct.subclasses(ci):
+                        r_ = ct.lookup(k, root)
+                        if r_ is None:
+                            continue
+                        try:
+                            pr, pw = eff_cache[k.qualname].of_function(r_[0], r_[1])[:2]
+                        except (AnalysisError, RecursionError, KeyError):
+                            pure = False
+                            break
+                        if pw or (set(pr) & writes):
+                            pure = False
+                            break
+                    if pure:
+                        table[n] = v
+            if not table:
+                continue
+            defining = {id(d) for n, (_v, _r, d) in cands.items() if n in table}
+
+            class R(ast.NodeTransformer):
+                def visit_Assign(self, st):
+                    if id(st) in defining:
+                        return st  # the alias binding itself stays
+                    return self.generic_visit(st)
+
+                def visit_Name(self, n):
+                    if isinstance(n.ctx, ast.Load) and n.id in table:
+                        return ast.copy_location(copy.deepcopy(table[n.id]), n)
+                    return n
+
+                def visit_FunctionDef(self, f):
+                    return self.generic_visit(f) if f is fn else f
+
+                def visit_Lambda(self, f):
+                    return f
+
+            R().visit(fn)
+            n_done += len(table)
+    return n_done
 
 
 def parents_of(root: ast.AST) -> dict[int, ast.AST]:
